@@ -221,7 +221,7 @@ def show(t, depth=0):
     if k == "arg":
         return "arg%d" % t[1]
     if k == "fld":
-        return "%s.%s" % (show(t[1], d), t[3] if t[3] is not None else t[2])
+        return "%s.%s" % (show(t[1], d), t[3] if len(t) > 3 and t[3] is not None else t[2])
     if k == "deref":
         return "*%s" % show(t[1], d)
     if k == "ref":
@@ -505,6 +505,8 @@ def N(t):
     if not isinstance(t, tuple) or not t:
         return t
     k = t[0]
+    if k in ("opq", "cs", "fn"):
+        return t
     if k == "zext":
         return N(t[1])
     if k == "fld":
